@@ -363,14 +363,18 @@ def _run_recrop(cfg):
             vid = fakes.FVideo(1, 8, 8)
             labels = fakes.FLabels([fakes.FLF(vid, 0, [fakes.FInst(a.view(SymNd), True, "A")], fakes.ramp_image(8, 8))], [vid])
             ds = _make_ds("CenteredInstanceDataset", anchor, labels)
-            s = ds[0]
-        return s, list(stubs.CROP_LOG)
+            s1 = ds[0]
+            n1 = len(stubs.CROP_LOG)
+            s2 = ds[0]  # the same index again (a second epoch): __getitem__ works on a copy of the cached first crop and must not have changed it
+        log = list(stubs.CROP_LOG)
+        return [(s1, log[:n1]), (s2, log[:n1 - 1] + log[n1:])]
 
     def extract(model, env):
         return {"instance": [[float(env[f"k{n}x"]), float(env[f"k{n}y"])] for n in range(2)], "anchor": anchor}
-    for s, log in ex.run(path):
-        rep.paths += 1
-        rep.nontrivial_paths += 1
+    for fetches in ex.run(path):
+      rep.paths += 1
+      rep.nontrivial_paths += 1
+      for s, log in fetches:
         ok = len(log) == 2 and log[1]["size"] == (4, 4)
         rep.record("B6-two-crops-second-of-crop_hw", "unsat" if ok else "sat")
         if not ok:
@@ -497,11 +501,16 @@ def replay(cfg, inputs, obligation):
         a = np.array(inputs["instance"], dtype=np.float64)
         vid = fakes.FVideo(1, 8, 8)
         labels = fakes.FLabels([fakes.FLF(vid, 0, [fakes.FInst(a, True, "A")], fakes.ramp_image(8, 8))], [vid])
-        s = _make_ds("CenteredInstanceDataset", cfg["anchor"], labels)[0]
+        ds = _make_ds("CenteredInstanceDataset", cfg["anchor"], labels)
         cen = a[cfg["anchor"]] if cfg["anchor"] is not None else (np.nanmin(a, 0) + np.nanmax(a, 0)) / 2
         want = a - cen + np.array([1.5, 1.5])  # in the final 4x4 crop the centroid sits at (crop-1)/2
-        bad = not np.allclose(s["instance"][0].numpy(), want, atol=1e-3)
-        return bool(bad), f"instance {s['instance'].tolist()} expected {want.tolist()}"
+        fetched = [ds[0] for _ in range(2)]  # first and second fetch of the same index
+        got = [f["instance"][0].numpy().copy() for f in fetched]
+        bad = any(not np.allclose(g, want, atol=1e-3) for g in got)
+        # augmentation is off: two fetches that return the same keypoints over different pixels (a re-crop cut elsewhere) cannot both be registered
+        same_cut = torch.allclose(fetched[0]["instance_bbox"], fetched[1]["instance_bbox"], atol=1e-3) and torch.allclose(fetched[0]["instance_image"], fetched[1]["instance_image"], atol=1e-6)
+        bad = bad or not same_cut
+        return bool(bad), f"instance (1st, 2nd fetch) {[g.tolist() for g in got]} expected {want.tolist()}; re-crop boxes {[f['instance_bbox'][0][0].tolist() for f in fetched]}"
     if kind == "cropsize":
         from symx import fakes
         wx, wy = inputs["extent"]
